@@ -4,7 +4,8 @@
 // (property C34).  Unexported names touched: Agent{ctx,cancel,clock,logger,agentType,agentVersion,
 // hostname,opampClient,usageTracker}, newUsageTracker, usageTracker{Add,NewReport,completeSend,
 // lastUsageData,currentDataPoints,lastDataPoints,mut}, sendUsageReport, errNoData, usageSignal,
-// signal_*, sendAgentTelemetryCapability, serviceName.
+// signal_*, sendAgentTelemetryCapability, serviceName, reportUsageInterval, defaultReportUsageInterval,
+// reportUsagePeriodically.
 package agent
 
 import (
@@ -33,10 +34,18 @@ func VerifNewUsage(c client.OpAMPClient, clock clockwork.Clock) *VerifUsage {
 		hostname:     "verif-host",
 		opampClient:  c,
 		usageTracker: newUsageTracker(),
+
+		reportUsageInterval: defaultReportUsageInterval,
 	}}
 }
 
 func (v *VerifUsage) Close() { v.a.cancel() }
+
+// StartUsageLoop starts the real reporting loop exactly as Agent.connect does.
+func (v *VerifUsage) StartUsageLoop() { go v.a.reportUsagePeriodically() }
+
+// ReportInterval is the loop's ticker period.
+func (v *VerifUsage) ReportInterval() time.Duration { return v.a.reportUsageInterval }
 
 // Add is usageTracker.Add as the agent's health-check loop calls it.
 func (v *VerifUsage) Add(signal string, reading float64) {
